@@ -3,6 +3,7 @@
 // compiled once; the 8 key types x 6 radices are thin forwarders, one TU per key width (C13_radix_w*.cpp).
 #pragma once
 #include <cstdint>
+#include <cstdlib>
 #include <limits>
 #include <type_traits>
 #include <utility>
@@ -26,6 +27,9 @@ struct IRadix {
     virtual bool empty() = 0;
     virtual void clear() = 0;
     virtual void copy_move(unsigned how) = 0;
+    //! (types target only) insert a copy of the heap's own top element through the reference top() returned;
+    //! returns what top() showed. how: 0 push, 1 push_to_bucket, 2 emplace_in_bucket, 3 emplace
+    virtual RV insert_top(unsigned) { abort(); }
     virtual long long show(uint64_t rank) = 0; // key as number for messages
 };
 
